@@ -100,11 +100,30 @@ def _job(args):
     return run_history(h, os.path.join(work, f"h{os.getpid()}_{i}"))
 
 
+_POOL = None
+
+
+def _pool():
+    """Worker pool, forked while this process is still small: the workers fork once more per call / crash
+    point, and fork() pays for the page tables of whatever the parent has parsed by then."""
+    global _POOL
+    if _POOL is None:
+        _POOL = mp.get_context("fork").Pool(12)
+    return _POOL
+
+
+def _close_pool():
+    global _POOL
+    if _POOL is not None:
+        _POOL.close()
+        _POOL.join()
+        _POOL = None
+
+
 def _run_all(hists):
     work = os.path.join(vlib.WORK, "c19")
     os.makedirs(work, exist_ok=True)
-    with mp.get_context("fork").Pool(12) as pool:
-        recs = pool.map(_job, [(i, h, work) for i, h in enumerate(hists)], chunksize=4)
+    recs = _pool().map(_job, [(i, h, work) for i, h in enumerate(hists)], chunksize=4)
     for i, (h, r) in enumerate(zip(hists, recs)):
         r["id"] = i
         r["h"] = h
@@ -398,14 +417,21 @@ def run(ctx):
         "a restart between calls is a new process (fork; thorough: also fresh interpreters): nothing but the directory survives a call, as in the model",
         "directories with more than 99999 files (6-digit names, where sorting by name breaks) are out of scope",
     ]
-    _stage_a(ctx)
-    _stage_b(ctx)
-    _stage_c(ctx)
+    _pool()
+    try:
+        _stage_a(ctx)
+        _stage_b(ctx)
+        _stage_c(ctx)
+    finally:
+        _close_pool()
 
 
 def replay(ctx, path):
     doc = json.load(open(path))
     hists = [c["case"]["history"] for c in doc["cases"] if "history" in c["case"]]
     ctx.rule = "replay of recorded histories"
-    recs = _run_all(hists)
+    try:
+        recs = _run_all(hists)
+    finally:
+        _close_pool()
     _validate(ctx, recs, "replay", "C")
